@@ -7,6 +7,7 @@ import (
 	"fmt"
 	"strings"
 
+	"github.com/xelaj/mtproto/zverif/freepass"
 	"github.com/xelaj/mtproto/zverif/ref/mtp1"
 
 	"github.com/xelaj/mtproto/zverif/hs"
@@ -107,6 +108,7 @@ func faultClass(f authsrv.Fault) string {
 
 func main() {
 	run := vr.New("C07", "fault_enumeration")
+	freepass.MaybeReplay(run)
 	run.Rule("a conformant exchange (reference server R3, real client under the controlled scheduler, default schedule) with exactly one fault from the menu: every echoed nonce/server_nonce/new_nonce_hash field of every reply x {bit flips, fresh value, the other nonce, zero}; fingerprint list {none matching, empty, halves swapped}; SHA-1 prefix bit flips, content change without fixing the prefix, ciphertext truncated by a block, odd length, a flipped bit in each ciphertext block; failure/retry constructors; an unrelated reply at each step; every fault alone and followed by each of 4 further server messages on the same connection after the abort (plain new_session_created, plain bad_server_salt, new_session_created sealed under the abandoned key, a second dh_gen_ok); plus key histories: after a conformant exchange with test key A, a client configured with key B against a server offering only the fingerprint of A (all 6 ordered pairs); all entries are run; non-trivial = distinct fault")
 	run.Assume("the unfaulted exchange succeeds (checked first, and by C06)", "a fault that makes the server itself unable to continue (it never answers) is not in the menu: the client has no timeout, which is not what this property states")
 	base := hs.Base()
@@ -234,6 +236,7 @@ func main() {
 	run.Set("faults", len(faults))
 	run.Sample(map[string]any{"fault": "gen.hash=flip:127"})
 	run.Sample(map[string]any{"fault": "inner.ciphertext=truncate-block"})
+	freepass.Run(run, run.ID, freepass.Rounds(run))
 	run.Finish()
 }
 
